@@ -261,6 +261,18 @@ def check(case):
     try:
         kwargs = dict(change_addr=caddr, sender_keys=list(s["wifs"]) if signed else [], sighash_flag=flag if signed else None,
                       send_fraction=frac, miner_fee=fee, version=version, locktime=locktime, rpc_url="http://stub")
+        if (T + len(utxos)) % 3 == 0:
+            # history: the same sender first sends (unsigned, to itself) from ANOTHER set of unspent outputs - what a wallet
+            # does between two blocks; nothing of that scan or transaction may show in the call under test
+            keep = json.loads(json.dumps(result))
+            other = [{"txid": hashlib.sha256(bytes.fromhex(u["txid"])).hexdigest(), "vout": u["vout"] + 1, "scriptPubKey": s["spk"].hex(),
+                      "amount": btc_float(u["sat"] // 2 + 1000), "height": 99} for u in utxos[:1] + utxos]
+            result.update(txouts=len(other), total_amount=btc_float(sum(round(o["amount"] * 10**8) for o in other)), unspents=other)
+            attempt(bits.tx.send_tx, s["addr"], s["addr"], sender_keys=[], send_fraction=0.5, miner_fee=500, rpc_url="http://stub")
+            result.clear()
+            result.update(keep)
+            del seen[:]
+            cls.append("nt:after-send-from-other-utxo-set")
         got = attempt(bits.tx.send_tx, s["addr"], raddr, **kwargs)
     finally:
         bits.rpc.rpc_method = saved
@@ -394,9 +406,9 @@ def targets(tier):
     built = [f"built:{k}" for k in LEGACY + SEGWIT]
     return [
         Target("signed", check, strategy=lambda tier: cases(signed=True), budget={"quick": 960, "thorough": 12000},
-               required=built + ["nt:n_in>=2", "nt:vout!=idx", "nt:float-misround", "nt:flag!=ALL", "nt:non-default-version-locktime", "nt:outputs-of-same-tx"]
+               required=built + ["nt:n_in>=2", "nt:vout!=idx", "nt:float-misround", "nt:flag!=ALL", "nt:non-default-version-locktime", "nt:outputs-of-same-tx", "nt:after-send-from-other-utxo-set"]
                + [f"nt:sign/{fam}/{n}/{fc}" for fam in ("legacy", "segwit") for n in ("n_in=1", "n_in>=2") for fc in ("ALL", "ACP-only", "NONE-SINGLE")]
                + ["nt:sign/legacy/single-with-input-index-beyond-outputs", "nt:sign/segwit/single-with-input-index-beyond-outputs"]),
         Target("unsigned", check, strategy=lambda tier: cases(signed=False), budget={"quick": 1600, "thorough": 30000},
-               required=["nt:n_in>=2", "nt:float-misround", "refused"]),
+               required=["nt:n_in>=2", "nt:float-misround", "refused", "nt:after-send-from-other-utxo-set"]),
     ]
